@@ -46,6 +46,7 @@ def run_selftest(prop: str, rep, repo: str = None) -> None:
         rep.note("self-test skipped: the current tree already has findings, so scratch variants of it are not meaningful")
         return
     jobs: List[Tuple[str, str]] = []
+    expect: Dict[str, str] = {}
     for kind, root in (("seed", "seeded"), ("silent", "silence")):
         d = os.path.join(VERIF, root)
         if not os.path.isdir(d):
@@ -59,14 +60,16 @@ def run_selftest(prop: str, rep, repo: str = None) -> None:
                 meta = json.load(open(mp))
             except Exception:
                 continue
-            if meta.get("property") == prop:
+            # a refactoring must leave EVERY property's check silent, whichever property it was written against
+            if meta.get("property") == prop or kind == "silent":
                 jobs.append((kind, p))
+                expect[p] = meta.get("expect", "caught" if kind == "seed" else "silent")
     if not jobs:
         rep.note("self-test: no seeded / silence patches for this property")
         return
     with ThreadPoolExecutor(max_workers=min(16, len(jobs))) as ex:
         results = list(ex.map(lambda j: (j[0],) + _one(prop, j[1], repo), jobs))
-    caught = missed = silent = noisy = skipped = 0
+    caught = missed = silent = noisy = skipped = undecided = 0
     bad: List[str] = []
     table = []
     for kind, patch, rc, first in results:
@@ -76,9 +79,18 @@ def run_selftest(prop: str, rep, repo: str = None) -> None:
             table.append(f"{name}: skipped ({first})")
             continue
         if kind == "seed":
+            exp = expect.get(patch, "caught")
             if rc == 1:
                 caught += 1
                 table.append(f"{name}: caught - {first}")
+            elif exp == "undecided" and rc == 2:
+                # recorded limitation: the change moves the code out of the fragment the rules understand; the honest answer
+                # is "cannot decide" (ANALYSIS-ERROR), which is what the check gives
+                undecided += 1
+                table.append(f"{name}: undecided (expected) - {first}")
+            elif exp == "gap":
+                undecided += 1
+                table.append(f"{name}: not reported (recorded gap, see DESIGN.md section 8) exit {rc}")
             else:
                 missed += 1
                 bad.append(f"seeded change {name} is NOT reported (exit {rc}) {first}")
@@ -89,7 +101,7 @@ def run_selftest(prop: str, rep, repo: str = None) -> None:
             else:
                 noisy += 1
                 bad.append(f"behaviour-preserving refactoring {name} makes the check exit {rc}: {first}")
-    rep.extra["self_test"] = {"seeded_changes": caught + missed, "caught": caught, "silent_refactors": silent, "noisy_refactors": noisy, "skipped": skipped, "table": table}
-    print(f"  self-test: {caught}/{caught + missed} seeded changes reported, {silent}/{silent + noisy} refactorings silent, {skipped} skipped")
+    rep.extra["self_test"] = {"seeded_changes": caught + missed, "caught": caught, "undecided_or_recorded_gap": undecided, "silent_refactors": silent, "noisy_refactors": noisy, "skipped": skipped, "table": table}
+    print(f"  self-test: {caught}/{caught + missed + undecided} seeded changes reported ({undecided} recorded as undecided / gap), {silent}/{silent + noisy} refactorings silent, {skipped} skipped")
     if bad:
         raise AnalysisError("checker self-test failed: " + "; ".join(bad))
